@@ -27,6 +27,7 @@ use std::ptr;
 use std::sync::atomic::{AtomicBool, Ordering};
 #[cfg(not(sighook_verif))]
 use std::sync::{Arc, Mutex};
+use std::sync::PoisonError;
 #[cfg(sighook_verif)]
 use signal_hook_registry::verif::atomic::{AtomicBool, Ordering};
 #[cfg(sighook_verif)]
@@ -69,7 +70,12 @@ impl DeliveryState {
 
 impl Drop for DeliveryState {
     fn drop(&mut self) {
-        let lock = self.registered_signal_ids.lock().unwrap();
+        // A panic inside add_signal (forbidden or out of range signal) poisons the mutex, but
+        // the table is only ever changed by its final assignment, so it is still consistent.
+        let lock = self
+            .registered_signal_ids
+            .lock()
+            .unwrap_or_else(PoisonError::into_inner);
         for id in lock.iter().filter_map(|s| *s) {
             crate::low_level::unregister(id);
         }
@@ -196,7 +202,12 @@ impl Handle {
     /// * If the relevant [`Exfiltrator`] does not support this particular signal. The default
     ///   [`SignalOnly`] one supports all signals.
     pub fn add_signal(&self, signal: c_int) -> Result<(), Error> {
-        let mut lock = self.delivery_state.registered_signal_ids.lock().unwrap();
+        // See the comment in the Drop of DeliveryState about the poisoning.
+        let mut lock = self
+            .delivery_state
+            .registered_signal_ids
+            .lock()
+            .unwrap_or_else(PoisonError::into_inner);
         // Already registered, ignoring
         if lock[signal as usize].is_some() {
             return Ok(());
